@@ -88,14 +88,15 @@ ByteItems(e) == LET b == e.b IN
     IF enc \in PhredOffsetEncs
     THEN J(PrintableByte(enc, b), e.dp[i] = Decode(enc, b), "DecodeToQphred",
            enc \o " byte " \o S(b) \o " got " \o S(e.dp[i]) \o " want " \o S(Decode(enc, b)))
-         \o D(PrintableByte(enc, b), e.ds[i] = (IF Off(enc) = 33 THEN e.p2s33 ELSE e.p2s64), "DecodeToQsolexa(Phred offset)",
+         \* decoding to the other score kind = decoding to the encoding's own kind, then the conversion (both stated in C18)
+         \o J(PrintableByte(enc, b), e.ds[i] = (IF Off(enc) = 33 THEN e.p2s33 ELSE e.p2s64), "DecodeToQsolexa(Phred offset)",
               enc \o " byte " \o S(b) \o " got " \o S(e.ds[i]) \o " but the decoded Phred score converts to "
               \o S(IF Off(enc) = 33 THEN e.p2s33 ELSE e.p2s64))
          \o D(PrintableByte(enc, b), e.rp[i] = b, "Encode(Decode(byte))", enc \o " byte " \o S(b) \o " re-encodes to " \o S(e.rp[i]))
     ELSE IF enc = "Solexa"
     THEN J(PrintableByte(enc, b), e.ds[i] = Decode(enc, b), "DecodeToQsolexa",
            "byte " \o S(b) \o " got " \o S(e.ds[i]) \o " want " \o S(Decode(enc, b)))
-         \o D(PrintableByte(enc, b), e.dp[i] = e.s2p64, "DecodeToQphred(Solexa)",
+         \o J(PrintableByte(enc, b), e.dp[i] = e.s2p64, "DecodeToQphred(Solexa)",
               "byte " \o S(b) \o " got " \o S(e.dp[i]) \o " but the decoded Solexa score converts to " \o S(e.s2p64))
          \o D(PrintableByte(enc, b), e.rs[i] = b, "Encode(Decode(byte))", "Solexa byte " \o S(b) \o " re-encodes to " \o S(e.rs[i]))
     ELSE D(TRUE, e.dp[i] = 255 /\ e.ds[i] = -128, "Decode(None)", "byte " \o S(b)))
